@@ -221,7 +221,10 @@ async fn run_async(case: &Value, client: UnixStream) -> (Vec<Value>, Vec<i32>, S
             "compare" => match guard(ldap.compare(&s(&st["dn"]), "a", "v")).await { Some(r) => res_json(r, |c| result_json(&c.0)), None => json!("hang") },
             "whoami" => match guard(ldap.extended(ldap3::exop::WhoAmI)).await { Some(r) => res_json(r, |x| json!({"result": result_json(&x.1), "name": x.0.name, "val": x.0.val})), None => json!("hang") },
             "sasl_external_bind" => match guard(ldap.sasl_external_bind()).await { Some(r) => res_json(r, result_json), None => json!("hang") },
-            "modifydn" => match guard(ldap.modifydn(&s(&st["dn"]), "cn=n", true, Some("dc=s"))).await { Some(r) => res_json(r, result_json), None => json!("hang") },
+            "modifydn" => {
+                let ns: Option<String> = match st.get("new_sup") { None => Some("dc=s".to_string()), Some(Value::Null) => None, Some(v) => Some(s(v)) };
+                match guard(ldap.modifydn(&s(&st["dn"]), st["rdn"].as_str().unwrap_or("cn=n"), st["delete_old"].as_bool().unwrap_or(true), ns.as_deref())).await { Some(r) => res_json(r, result_json), None => json!("hang") }
+            }
             "add" => match guard(ldap.add(&s(&st["dn"]), vec![("cn", std::collections::HashSet::from(["v"]))])).await { Some(r) => res_json(r, result_json), None => json!("hang") },
             "modify" => match guard(ldap.modify(&s(&st["dn"]), vec![ldap3::Mod::Replace("cn", std::collections::HashSet::from(["v"]))])).await { Some(r) => res_json(r, result_json), None => json!("hang") },
             "abandon" => match guard(ldap.abandon(st["id"].as_i64().unwrap() as i32)).await { Some(r) => res_json(r, |_| json!(null)), None => json!("hang") },
@@ -303,7 +306,10 @@ fn run_sync(case: &Value, client: UnixStream) -> (Vec<Value>, Vec<i32>, String) 
             "compare" => res_json(conn.compare(&s(&st["dn"]), "a", "v"), |c| result_json(&c.0)),
             "whoami" => res_json(conn.extended(ldap3::exop::WhoAmI), |x| json!({"result": result_json(&x.1), "name": x.0.name, "val": x.0.val})),
             "sasl_external_bind" => res_json(conn.sasl_external_bind(), result_json),
-            "modifydn" => res_json(conn.modifydn(&s(&st["dn"]), "cn=n", true, Some("dc=s")), result_json),
+            "modifydn" => {
+                let ns: Option<String> = match st.get("new_sup") { None => Some("dc=s".to_string()), Some(Value::Null) => None, Some(v) => Some(s(v)) };
+                res_json(conn.modifydn(&s(&st["dn"]), st["rdn"].as_str().unwrap_or("cn=n"), st["delete_old"].as_bool().unwrap_or(true), ns.as_deref()), result_json)
+            }
             "add" => res_json(conn.add(&s(&st["dn"]), vec![("cn", std::collections::HashSet::from(["v"]))]), result_json),
             "modify" => res_json(conn.modify(&s(&st["dn"]), vec![ldap3::Mod::Replace("cn", std::collections::HashSet::from(["v"]))]), result_json),
             "abandon" => res_json(conn.abandon(st["id"].as_i64().unwrap() as i32), |_| json!(null)),
